@@ -202,12 +202,13 @@ Proof.
   assert (existsb p l = true) by (apply existsb_exists; exists x; auto). congruence.
 Qed.
 
-Theorem check_sound_hist : forall f b hk slack evs obs,
+Theorem check_sound_hist : forall f b hk slack xsets evs obs,
   hist_wf f hk slack evs ->
-  let v := check f (CHist b hk slack evs obs) in
+  let v := check f (CHist b hk slack xsets evs obs) in
   v_corr v = true -> v_guards v = [] -> v_prop v = true.
 Proof.
-  intros f b hk slack evs obs Hwf v Hc Hg. subst v. simpl in *.
+  intros f b hk slack xsets evs obs Hwf v Hc Hg. subst v. simpl in *.
+  apply andb_true_iff in Hc as [_ Hc].
   destruct Hwf as [Hslack Hsorted Hnodup Hnoexp Httl].
   unfold hist_run in Hc.
   set (t0 := match evs with (t, _, _) :: _ => t | [] => 0 end) in *.
@@ -258,40 +259,41 @@ Proof. intro H. induction l as [|x r IH]; [reflexivity|]. simpl. rewrite H, IH. 
 
 Lemma guards_fixed : forall c, v_guards (check fx_all c) = [].
 Proof.
-  intros [m st exp now dmax o | m conf rule exp now dmax o | b method_ok vary cachable life dflt dmax o_lookup o_set o_hit | b ops
-         | b [m conf rule | dflt] slack evs obs]; simpl; unfold guards; simpl.
-  - unfold guard_F1. simpl. reflexivity.
+  intros [m conf rule exp now dmax o | b cachable h dflt now dmax tget o_nsets o_set o_hit | b ops
+         | b [m conf rule | dflt] slack xsets evs obs | ]; simpl; unfold guards; simpl.
   - unfold guard_F1, guard_F3. simpl. reflexivity.
-  - unfold g_F2. simpl. rewrite andb_false_r. reflexivity.
+  - unfold guard_F4. simpl. reflexivity.
   - reflexivity.
   - rewrite existsb_const_false by (intros [[t k] fr]; unfold guard_F1; reflexivity).
     unfold guard_F3. simpl. reflexivity.
   - rewrite existsb_const_false by (intros [[t k] fr]; unfold g_F2; reflexivity). reflexivity.
+  - reflexivity.
 Qed.
 
 (** well-formedness of a recorded case: what the driver guarantees (measured
     bracket at most [max_delay] wide, no expiry information for mechanisms that
-    have none, [hist_wf] for histories) *)
+    have none, a non-negative Age value, [hist_wf] for histories).  The driver
+    checks these itself and records a case that violates them as skipped. *)
 Definition wf_case (f : fixes) (c : case) : Prop :=
   match c with
-  | CFn _ _ _ _ dmax _ => 0 <= dmax <= max_delay
   | CExec m _ _ exp _ dmax _ => 0 <= dmax <= max_delay /\ wf_exec m exp
-  | CHttp _ _ _ _ _ _ dmax _ _ _ => 0 <= dmax
+  | CHttp _ _ h _ now dmax _ _ _ _ => wf_http h now dmax
   | CCache _ _ => True
-  | CHist _ hk slack evs _ => hist_wf f hk slack evs
+  | CHist _ hk slack _ evs _ => hist_wf f hk slack evs
+  | CBroken => False
   end.
 
 Theorem check_sound : forall f c,
   wf_case f c ->
   v_corr (check f c) = true -> v_guards (check f c) = [] -> v_prop (check f c) = true.
 Proof.
-  intros f [m st exp now dmax o | m conf rule exp now dmax o | b method_ok vary cachable life dflt dmax o_lookup o_set o_hit | b ops
-           | b hk slack evs obs] Hwf.
-  - apply check_sound_fn. exact Hwf.
+  intros f [m conf rule exp now dmax o | b cachable h dflt now dmax tget o_nsets o_set o_hit | b ops
+           | b hk slack xsets evs obs | ] Hwf.
   - destruct Hwf. apply check_sound_exec; assumption.
   - apply check_sound_http. exact Hwf.
   - apply check_sound_cache.
   - apply check_sound_hist. exact Hwf.
+  - destruct Hwf.
 Qed.
 
 Theorem check_sound_fixed : forall c,
